@@ -358,6 +358,14 @@ impl<K: V + Eq + std::hash::Hash, W: V> V for DashMap<K, W, SeededState> {
     fn same(&self, o: &Self) -> bool { self.len() == o.len() && self.iter().all(|e| o.get(e.key()).is_some_and(|w| e.value().same(&*w))) }
     fn near(&self, r: &mut Rng) -> Self {
         let m = self.dup();
+        let all: Vec<(K, W)> = self.iter().map(|e| (e.key().dup(), e.value().dup())).collect();
+        if all.len() >= 2 && r.chance(1, 2) {
+            if let Some(j) = (1..all.len()).find(|j| !all[*j].1.same(&all[0].1)) {
+                m.insert(all[0].0.dup(), all[j].1.dup());
+                m.insert(all[j].0.dup(), all[0].1.dup());
+                return m;
+            }
+        }
         let first = self.iter().next().map(|e| (e.key().dup(), e.value().dup()));
         match first {
             Some((k, v)) => {
@@ -648,6 +656,7 @@ impl V for EnSkip {
 }
 
 include!("big_enum.rs");
+include!("wide_enum.rs");
 
 // ---- feature-gated collections ----------------------------------------------------------------------
 
